@@ -91,6 +91,10 @@ class _Compiler:
                         self.emitter.append(f"case {' | '.join(f'0b0{pattern}' for pattern in patterns)}:")
                     with self.emitter.indent():
                         case_handler(*case)
+                    if patterns is None:
+                        # Cases after the default one are never active, and Python rejects
+                        # patterns that follow a wildcard.
+                        break
         else:
             for index, case in enumerate(cases):
                 patterns = case[0]
